@@ -869,6 +869,266 @@ example : Spec.Dev.sigTie 0x146c4f94f99599 31 3 = false := by decide +kernel
 example : (Spec.sigRoundUp 0x146c4f94f99599 31 3) = ([1, 2, 3], 25) := by decide +kernel
 example : Spec.expStr false 0x146c4f94f99599 31 true 2 = OttoVerif.Str.ofString "1.23e+25" := by decide +kernel
 
+/-! ### toExponential with otto's tie correction (42433cc) -/
+
+/-- with enough fuel the digit loop is independent of the fuel and appends to the accumulator -/
+theorem natDigitsAux_acc (n : Nat) : ∀ fuel acc, fuel ≥ n → natDigitsAux fuel n acc = natDigitsAux n n [] ++ acc := by
+  induction n using Nat.strongRecOn with
+  | _ n ih =>
+    intro fuel acc hf
+    by_cases hn : n = 0
+    · subst hn; cases fuel <;> simp [natDigitsAux]
+    · obtain ⟨k, rfl⟩ : ∃ k, fuel = k + 1 := ⟨fuel - 1, by omega⟩
+      obtain ⟨j, hj⟩ : ∃ j, n = j + 1 := ⟨n - 1, by omega⟩
+      have hlt : n / 10 < n := by omega
+      have lhs : natDigitsAux (k + 1) n acc = natDigitsAux (n / 10) (n / 10) [] ++ (n % 10 :: acc) := by
+        simp only [natDigitsAux, hn, if_false]
+        exact ih (n / 10) hlt k (n % 10 :: acc) (by omega)
+      have rhs : natDigitsAux n n [] = natDigitsAux (n / 10) (n / 10) [] ++ [n % 10] := by
+        conv => lhs; rw [hj]
+        simp only [natDigitsAux, ← hj, hn, if_false]
+        exact ih (n / 10) hlt j [n % 10] (by omega)
+      rw [lhs, rhs]; simp
+
+/-- the decimal digits of 10·a + d -/
+theorem natDigits_snoc (a d : Nat) (hd : d < 10) (hne : 10 * a + d ≠ 0) :
+    natDigits (10 * a + d) = natDigits a ++ [d] := by
+  unfold natDigits
+  obtain ⟨j, hj⟩ : ∃ j, 10 * a + d = j + 1 := ⟨10 * a + d - 1, by omega⟩
+  have h1 : (10 * a + d) / 10 = a := by omega
+  have h2 : (10 * a + d) % 10 = d := by omega
+  conv => lhs; rw [hj]
+  simp only [natDigitsAux, ← hj, hne, if_false, h1, h2]
+  exact natDigitsAux_acc a j [d] (by omega)
+
+/-- incrementing a number whose last digit is not 9 increments its last digit -/
+theorem natDigits_succ_even (q : Nat) (hq : q ≠ 0) (heven : q % 2 = 0) :
+    ∃ D d, d < 9 ∧ natDigits q = D ++ [d] ∧ natDigits (q + 1) = D ++ [d + 1] := by
+  refine ⟨natDigits (q / 10), q % 10, by omega, ?_, ?_⟩
+  · have := natDigits_snoc (q / 10) (q % 10) (by omega) (by omega)
+    have h : 10 * (q / 10) + q % 10 = q := by omega
+    rw [h] at this; exact this
+  · have := natDigits_snoc (q / 10) (q % 10 + 1) (by omega) (by omega)
+    have h : 10 * (q / 10) + (q % 10 + 1) = q + 1 := by omega
+    rw [h] at this; exact this
+
+/-- `digits[e-1]++` finds the byte before the first 'e' -/
+theorem bump_spec (W : Str) (x : Nat) (suf : Str) (hW : ∀ c ∈ W, c ≠ 101) (hx : x ≠ 101) :
+    bumpBeforeE (W ++ x :: 101 :: suf) = W ++ (x + 1) :: 101 :: suf := by
+  induction W with
+  | nil => simp [bumpBeforeE]
+  | cons c t ih =>
+    have ht : ∀ c ∈ t, c ≠ 101 := fun c hc => hW c (by simp [hc])
+    cases t with
+    | nil =>
+      simp only [List.cons_append, List.nil_append, bumpBeforeE, hx, if_false]
+      simp [bumpBeforeE]
+    | cons d r =>
+      have hd : d ≠ 101 := hW d (by simp)
+      simp only [List.cons_append, bumpBeforeE, hd, if_false]
+      have := ih ht
+      simp only [List.cons_append] at this
+      rw [this]
+
+
+/-- the quotient ⌊x·10^(n−p)⌋ that both roundings start from (p = decimal exponent of x) -/
+def scaledQuot (m : Nat) (e : Int) (n : Nat) : Nat :=
+  let (num, den) := ratOf m e
+  let (a, b) := scale10 num den ((n : Int) - decExp num den)
+  a / b
+
+theorem rhu_tie (a b : Nat) (hb : 0 < b) (ht : 2 * (a % b) = b) : Spec.divRHU a b = a / b + 1 := by
+  unfold Spec.divRHU
+  have hdm := Nat.div_add_mod a b
+  have key : 2 * a + b = (2 * b) * (a / b + 1) := by
+    have : 2 * a = 2 * (b * (a / b)) + 2 * (a % b) := by omega
+    rw [this, ht, Nat.mul_add, Nat.mul_one, Nat.mul_assoc]
+    omega
+  rw [key, Nat.mul_div_cancel_left _ (by omega : 0 < 2 * b)]
+
+theorem rne_tie (a b : Nat) (ht : 2 * (a % b) = b) : divRNE a b = if (a / b) % 2 = 0 then a / b else a / b + 1 := by
+  unfold divRNE
+  have h1 : ¬ (2 * (a % b) < b) := by omega
+  have h2 : ¬ (2 * (a % b) > b) := by omega
+  simp only [h1, h2, if_false]
+
+/-- `toExponential_core` from any agreement of the two roundings -/
+theorem toExponential_of_rr (s : Bool) (m : Nat) (e : Int) (f : Nat) (hm : m ≠ 0)
+    (hrr : ∀ a b, scale10 (ratOf m e).1 (ratOf m e).2 (((f + 1 : Nat) : Int) - decExp (ratOf m e).1 (ratOf m e).2) = (a, b) →
+      divRNE a b = Spec.divRHU a b)
+    (hlen : (Spec.sigRoundUp m e (f + 1)).1.length = f + 1)
+    (hex : 10 ≤ (Spec.sigRoundUp m e (f + 1)).2.natAbs ∧ (Spec.sigRoundUp m e (f + 1)).2.natAbs < 1000) :
+    formatFloat Spec.exactLib (.fin s m e) .e (f : Int) = Spec.expStr s m e true f := by
+  have hneg : ¬ ((f : Int) < 0) := by omega
+  simp only [formatFloat, hneg, if_false, hm, Spec.exactLib, goFixedSig, formatDigits, Int.toNat_natCast,
+    Spec.expStr, if_true]
+  simp only [Spec.sigRoundUp] at hlen hex
+  cases hr : ratOf m e with
+  | mk num den =>
+    rw [hr] at hrr hlen hex
+    simp only [sigDigitsWith, Spec.sigRoundUp, hr] at hrr hlen hex ⊢
+    cases hsc : scale10 num den (((f + 1 : Nat) : Int) - decExp num den) with
+    | mk a b =>
+      rw [hsc] at hlen hex
+      simp only [hsc] at hlen hex ⊢
+      rw [hrr a b hsc]
+      by_cases hov : Spec.divRHU a b ≥ 10 ^ (f + 1)
+      · simp only [hov, if_true] at hlen hex ⊢
+        have h1 : (decExp num den + 1 - 1) = decExp num den := by omega
+        have := exp_layout s 1 [] f (decExp num den + 1) (by rw [h1]; exact hex.1) (by rw [h1]; exact hex.2)
+        simp only [List.length_nil, Nat.zero_add, List.nil_append] at this
+        rw [this, h1]
+        simp [es5ExpLayout, hm]
+      · simp only [hov, if_false] at hlen hex ⊢
+        have hr0 : Spec.divRHU a b ≠ 0 := by
+          intro h0; rw [h0] at hlen; simp [natDigits, natDigitsAux] at hlen
+        obtain ⟨c, cs, z, htrim, hfull⟩ := trim_natDigits _ hr0
+        have hz : cs.length + z = f := by
+          rw [hfull] at hlen; simp at hlen; omega
+        have := exp_layout s c cs z (decExp num den) hex.1 hex.2
+        rw [hz] at this
+        rw [htrim, this, ← hfull]
+        simp [es5ExpLayout, hm]
+
+
+theorem natDigitsAux_lt10 (fuel n : Nat) (acc : List Nat) (h : ∀ c ∈ acc, c < 10) :
+    ∀ c ∈ natDigitsAux fuel n acc, c < 10 := by
+  induction fuel generalizing n acc with
+  | zero => simpa [natDigitsAux] using h
+  | succ k ih =>
+    simp only [natDigitsAux]
+    split
+    · exact h
+    · apply ih
+      intro c hc
+      simp at hc
+      rcases hc with rfl | hc
+      · omega
+      · exact h c hc
+
+theorem natDigits_lt10 (n : Nat) : ∀ c ∈ natDigits n, c < 10 :=
+  natDigitsAux_lt10 n n [] (by simp)
+
+/-- the mantissa part of the §15.7.4.6 layout, split at its last digit -/
+theorem mant_snoc (D : Str) (x : Nat) :
+    (if (D ++ [x]).length ≤ 1 then D ++ [x] else (D ++ [x]).take 1 ++ 46 :: (D ++ [x]).drop 1)
+      = (if D = [] then [] else D.take 1 ++ 46 :: D.drop 1) ++ [x] := by
+  cases D with
+  | nil => simp
+  | cons c t => simp
+
+theorem mant_snoc' (n : Nat) (D : Str) (x : Nat) (hn : n = D.length + 1) :
+    (if n ≤ 1 then D ++ [x] else (D ++ [x]).take 1 ++ 46 :: (D ++ [x]).drop 1)
+      = (if D = [] then [] else D.take 1 ++ 46 :: D.drop 1) ++ [x] := by
+  subst hn
+  cases D with
+  | nil => simp
+  | cons c t => simp
+
+/-- C06.toExponential (digits given): for every finite non-zero double and every digit count f — exact
+    ties INCLUDED — strconv's `'e'` formatting followed by otto's tie correction is the §15.7.4.6 string,
+    when the decimal exponent needs two or three digits.  `hlen`/`hq` say that the scaled value has its
+    f+1 integer digits (both are consequences of `decExp` being the decimal exponent; checked per sample). -/
+theorem toExponential_full (s : Bool) (m : Nat) (e : Int) (f : Nat) (hm : m ≠ 0)
+    (hlen : (Spec.sigRoundUp m e (f + 1)).1.length = f + 1)
+    (hex : 10 ≤ (Spec.sigRoundUp m e (f + 1)).2.natAbs ∧ (Spec.sigRoundUp m e (f + 1)).2.natAbs < 1000)
+    (hq : 0 < scaledQuot m e (f + 1) ∧ scaledQuot m e (f + 1) < 10 ^ (f + 1)) :
+    expFormat Spec.exactLib (.fin s m e) (f : Int) = Spec.expStr s m e true f := by
+  have hpos : (f : Int) ≥ 0 := by omega
+  simp only [expFormat, hpos, hm, ne_eq, not_false_eq_true, true_and, Int.toNat_natCast]
+  have hden := ratOf_den_pos m e
+  cases hr : ratOf m e with
+  | mk num den =>
+    rw [hr] at hden
+    cases hsc : scale10 num den (((f + 1 : Nat) : Int) - decExp num den) with
+    | mk a b =>
+      have hb : 0 < b := by
+        have := scale10_den_pos num den (((f + 1 : Nat) : Int) - decExp num den) hden
+        rw [hsc] at this; exact this
+      have htd : tieRoundedDown m e (f + 1) = decide (2 * (a % b) = b ∧ (a / b) % 2 = 0) := by
+        simp only [tieRoundedDown, hr, hsc]
+      have hqv : scaledQuot m e (f + 1) = a / b := by simp only [scaledQuot, hr, hsc]
+      rw [hqv] at hq
+      rw [htd]
+      by_cases ht : 2 * (a % b) = b
+      · by_cases hev : (a / b) % 2 = 0
+        · -- exact tie, strconv went down to the even quotient: the correction applies
+          simp only [ht, hev, and_self, decide_true, if_true]
+          have hneg : ¬ ((f : Int) < 0) := by omega
+          have hq0 : a / b ≠ 0 := by omega
+          have hnov : ¬ (a / b ≥ 10 ^ (f + 1)) := by omega
+          have hpar : 10 ^ (f + 1) % 2 = 0 := by rw [Nat.pow_succ]; omega
+          have hnov' : ¬ (a / b + 1 ≥ 10 ^ (f + 1)) := by omega
+          obtain ⟨D, d, hd9, hDq, hDq1⟩ := natDigits_succ_even (a / b) hq0 hev
+          -- the model string before the correction
+          have hrne : divRNE a b = a / b := by rw [rne_tie a b ht]; simp [hev]
+          have hrhu : Spec.divRHU a b = a / b + 1 := rhu_tie a b hb ht
+          simp only [Spec.sigRoundUp, hr, hsc, hrhu, hnov', if_false] at hlen hex
+          simp only [formatFloat, hneg, if_false, hm, Spec.exactLib, goFixedSig, formatDigits, Int.toNat_natCast, hr,
+            sigDigitsWith, hsc, hrne, hnov]
+          obtain ⟨c, cs, z, htrim, hfull⟩ := trim_natDigits _ hq0
+          have hlenq : (natDigits (a / b)).length = f + 1 := by
+            rw [hDq]; rw [hDq1] at hlen; simpa using hlen
+          have hz : cs.length + z = f := by
+            rw [hfull] at hlenq; simp at hlenq; omega
+          have hlay := exp_layout s c cs z (decExp num den) hex.1 hex.2
+          rw [hz] at hlay
+          rw [htrim, hlay, ← hfull, hDq]
+          -- the spec string
+          simp only [Spec.expStr, hm, if_false, ne_eq, not_false_eq_true, and_true, if_true, Spec.sigRoundUp, hr, hsc,
+            hrhu, hnov', hDq1]
+          -- shape both as  pre ++ W ++ [x] ++ 'e' :: suffix
+          simp only [es5ExpLayout, Spec.expSuffix, List.map_append, List.map_cons, List.map_nil, mant_snoc]
+          rw [mant_snoc' (D ++ [d + 1]).length (D.map digitCh) (digitCh (d + 1)) (by simp)]
+          have hdig : ∀ x ∈ D, x < 10 := by
+            intro x hx
+            have := natDigits_lt10 (a / b) x (by rw [hDq]; simp [hx])
+            exact this
+          have hW : ∀ x ∈ (if s then [45] else []) ++
+              (if D.map digitCh = [] then [] else (D.map digitCh).take 1 ++ 46 :: (D.map digitCh).drop 1), x ≠ 101 := by
+            intro x hx
+            simp only [List.mem_append] at hx
+            rcases hx with hx | hx
+            · cases s <;> simp at hx; omega
+            · split at hx
+              · cases hx
+              · simp only [List.mem_append, List.mem_cons] at hx
+                rcases hx with hx | hx | hx
+                · obtain ⟨y, hy, rfl⟩ := List.mem_map.mp (List.mem_of_mem_take hx)
+                  have := hdig y hy; unfold digitCh; omega
+                · omega
+                · obtain ⟨y, hy, rfl⟩ := List.mem_map.mp (List.mem_of_mem_drop hx)
+                  have := hdig y hy; unfold digitCh; omega
+          have hx : digitCh d ≠ 101 := by unfold digitCh; omega
+          have hb1 := bump_spec _ (digitCh d) ((if decExp num den - 1 < 0 then 45 else 43) :: Spec.decimalStr (decExp num den - 1).natAbs) hW hx
+          have hd1 : digitCh (d + 1) = digitCh d + 1 := by unfold digitCh; omega
+          rw [hd1]
+          simpa [List.append_assoc] using hb1
+        · -- exact tie rounded up by strconv as well
+          have hno : ¬ (2 * (a % b) = b ∧ (a / b) % 2 = 0) := fun h => hev h.2
+          simp only [hno, decide_false, Bool.false_eq_true, if_false]
+          apply toExponential_of_rr s m e f hm _ hlen hex
+          intro a' b' h'
+          rw [hr] at h'; simp only at h'
+          rw [hsc] at h'
+          obtain ⟨rfl, rfl⟩ := Prod.mk.inj h'
+          rw [rne_tie a b ht, rhu_tie a b hb ht]; simp [hev]
+      · have hno : ¬ (2 * (a % b) = b ∧ (a / b) % 2 = 0) := fun h => ht h.1
+        simp only [hno, decide_false, Bool.false_eq_true, if_false]
+        apply toExponential_of_rr s m e f hm _ hlen hex
+        intro a' b' h'
+        rw [hr] at h'; simp only at h'
+        rw [hsc] at h'
+        obtain ⟨rfl, rfl⟩ := Prod.mk.inj h'
+        exact rne_eq_rhu a b hb (by simp [Spec.Dev.isTie, ht])
+
+
+/-- `toExponential_full` on an exact tie with an even kept digit: (12345678905).toExponential(9) = "1.234567891e+10" -/
+example : tieRoundedDown 0x16fee0e1c80000 (-19) 10 = true := by decide +kernel
+example : 0 < scaledQuot 0x16fee0e1c80000 (-19) 10 ∧ scaledQuot 0x16fee0e1c80000 (-19) 10 < 10 ^ 10 := by decide +kernel
+example : Spec.sigRoundUp 0x16fee0e1c80000 (-19) 10 = ([1, 2, 3, 4, 5, 6, 7, 8, 9, 1], 10) := by decide +kernel
+example : expFormat Spec.exactLib (.fin false 0x16fee0e1c80000 (-19)) 9 = OttoVerif.Str.ofString "1.234567891e+10" := by decide +kernel
+
 /-! ## toPrecision (§15.7.4.7) -/
 
 /-- in the fixed-notation range the §15.7.4.7 layout of p digits is the §9.8.1 layout (steps 6–8) -/
@@ -2425,6 +2685,19 @@ example : [45] ++ decBody [49, 50] [53, 48] true = OttoVerif.Str.ofString "-12.5
 example : same (Spec.stringToNumber (OttoVerif.Str.ofString "-12.50")) (decode 0xc029000000000000) = true := by decide +kernel
 example : same (stringToNumber (OttoVerif.Str.ofString ".5")) (decode 0x3fe0000000000000) = true := by decide +kernel
 
+/-! ## receivers of the Number.prototype methods; String of literals and of parseInt results -/
+
+/-- §15.7.4: toString, toLocaleString, valueOf, toFixed, toExponential, toPrecision accept exactly Number and
+    Number-object receivers (all of them go through `thisClassObject("Number")` since e68311c) -/
+theorem numberMethodThis_eq (k : ThisKind) : numberMethodThis k = Spec.numberMethodThis k := by
+  cases k <;> rfl
+
+/-- an int64-kinded result of parseInt is at most 2^53 in magnitude (beyond, the Value is a float64) -/
+theorem parseIntIsInt_bound (s : Bool) (m : Nat) (e : Int) (h : parseIntIsInt (.fin s m e) = true) :
+    truncAbs m e ≤ 2 ^ 53 := by
+  simp [parseIntIsInt] at h
+  exact h.2
+
 /-! ## non-vacuity of the layout theorem, witnesses of the remaining deviation regions, and the
     former regions (now model = spec) -/
 
@@ -2465,9 +2738,13 @@ example : Spec.toExponential (fv 0x8000000000000000) (.num (fv 0x400000000000000
 /-- (1.5).toExponential(25) is a RangeError on both sides (fix 94625b0) -/
 example : toExponential L0 (fv 0x3ff8000000000000) (.num (fv 0x4039000000000000)) = .rangeError := by decide +kernel
 example : Spec.toExponential (fv 0x3ff8000000000000) (.num (fv 0x4039000000000000)) = .rangeError := by decide +kernel
-/-- Dev toExponential_tie: (2.5).toExponential(0) -/
-example : toExponential L0 (fv 0x4004000000000000) (.num (fv 0)) = .str (bytes "2e+00") := by decide +kernel
+/-- former Dev toExponential_tie: (2.5).toExponential(0), (1.125).toExponential(2), (105).toExponential(1)
+    (only the exponent padding still differs) -/
+example : toExponential L0 (fv 0x4004000000000000) (.num (fv 0)) = .str (bytes "3e+00") := by decide +kernel
 example : Spec.toExponential (fv 0x4004000000000000) (.num (fv 0)) = .str (bytes "3e+0") := by decide +kernel
+example : toExponential L0 (fv 0x3ff2000000000000) (.num (fv 0x4000000000000000)) = .str (bytes "1.13e+00") := by decide +kernel
+example : toExponential L0 (fv 0x405a400000000000) (.num (fv 0x3ff0000000000000)) = .str (bytes "1.1e+02") := by decide +kernel
+example : Spec.toExponential (fv 0x405a400000000000) (.num (fv 0x3ff0000000000000)) = .str (bytes "1.1e+2") := by decide +kernel
 
 /-- Dev toPrecision_exp2: (123456).toPrecision(2) -/
 example : toPrecision L0 (fv 0x40fe240000000000) (.num (fv 0x4000000000000000)) = .str (bytes "1.2e+05") := by decide +kernel
@@ -2524,7 +2801,13 @@ example : (Spec.literalValue (bytes "01000000000000000000000")).map encode = som
 example : (literalValue (bytes "1.5e3")).map encode = (Spec.literalValue (bytes "1.5e3")).map encode := by decide +kernel
 example : literalValue (bytes "09") = none ∧ Spec.literalValue (bytes "09") = none := by decide +kernel
 
-/-- Dev int_kind_tostring: String(9007199254740993) with an int64-kinded value -/
+/-- former int_kind_tostring sources repaired at creation: the literal 9007199254740993 and parseInt of it -/
+example : literalString L0 (bytes "9007199254740993") = some (bytes "9007199254740992") := by decide +kernel
+example : Spec.literalString (bytes "9007199254740993") = some (bytes "9007199254740992") := by decide +kernel
+example : literalString L0 (bytes "1000000000000000128") = some (bytes "1000000000000000100") := by decide +kernel
+example : parseIntString L0 (bytes "9007199254740993") .undef = bytes "9007199254740992" := by decide +kernel
+example : parseIntString L0 (bytes "-123") .undef = bytes "-123" := by decide +kernel
+/-- Dev int_kind_tostring (now only Go integers handed to the VM): String of an int64-kinded 9007199254740993 -/
 example : formatInt 9007199254740993 10 = bytes "9007199254740993" := by decide +kernel
 example : Spec.toStringNum (ofInt 9007199254740993) = bytes "9007199254740992" := by decide +kernel
 
